@@ -348,7 +348,7 @@ pub fn run(ctx: &Ctx) -> i32 {
         property: "C18",
         tier,
         seed: ctx.seed,
-        scenarios: tier.pick(60, 1_500),
+        scenarios: tier.pick(200, 3_000),
         threads: 4,
         watchdog: Duration::from_secs(300),
         budget: Duration::from_secs(tier.pick(90, 900)),
